@@ -55,8 +55,37 @@ func oracleCritical(c *Ctx, rule string, want []string) {
 			}
 		}
 		// history append and intent table update under the lock, after the allocation
-		hist := fieldStoresIn(fn, false, "NoKV.oracle", "committedTxns")
-		intent := fieldStoresIn(fn, false, "NoKV.oracle", "intentTable")
+		// the writes themselves, or the call of a same-package helper that performs them
+		writeSites := func(field string) []ssa.Instruction {
+			if direct := fieldStoresIn(fn, false, "NoKV.oracle", field); len(direct) > 0 {
+				return direct
+			}
+			var out []ssa.Instruction
+			for _, ci := range Calls(fn, false, func(cc *ssa.CallCommon) bool { return true }) {
+				h := StaticFn(ci.Common())
+				if h == nil || h.Blocks == nil || h == fn || FuncPkgPath(h) != FuncPkgPath(fn) {
+					continue
+				}
+				if len(fieldStoresIn(h, false, "NoKV.oracle", field)) == 0 {
+					continue
+				}
+				// a helper that records the commit receives the allocated timestamp; one
+				// that only prunes the history (cleanupCommittedTransactions) does not
+				recordsTs := false
+				for _, a := range ci.Common().Args {
+					if derivedFrom(a, valuesOf(adds), 4) {
+						recordsTs = true
+					}
+				}
+				if recordsTs {
+					c.Touch(h)
+					out = append(out, ci.(ssa.Instruction))
+				}
+			}
+			return out
+		}
+		hist := writeSites("committedTxns")
+		intent := writeSites("intentTable")
 		if len(hist) < 1 {
 			c.Fail(rule, key(fn, "has:committedTxns-append"), fn.Pos(), 1, "no append to oracle.committedTxns found in newCommitTs")
 		}
@@ -86,6 +115,24 @@ func oracleCritical(c *Ctx, rule string, want []string) {
 			// conditional exits avoided?  Decide: from the Add, the append is reachable
 			// crossing only detectConflicts edges (no other If on the way).
 			extra := otherIfsBetween(fn, adds, h, "NoKV.oracle", "detectConflicts")
+			if ci, isCall := h.(ssa.CallInstruction); isCall && !okEdge {
+				// the guard may live in the helper that performs the append
+				if hf := StaticFn(ci.Common()); hf != nil && hf.Blocks != nil {
+					he := boolFieldEdges(hf, "NoKV.oracle", "detectConflicts", true)
+					stores := fieldStoresIn(hf, false, "NoKV.oracle", "committedTxns")
+					okEdge = len(stores) > 0
+					for _, st := range stores {
+						dom := false
+						for e := range he {
+							if EdgeDominates(e[0], e[1], st.Block()) {
+								dom = true
+							}
+						}
+						okEdge = okEdge && dom
+						extra += otherIfsBetween(hf, nil, st, "NoKV.oracle", "detectConflicts")
+					}
+				}
+			}
 			c.Decide(okEdge && extra == 0, rule, k, h.Pos(), 2+extra,
 				"append is guarded only by oracle.detectConflicts", fmt.Sprintf("append to the conflict history is guarded by %d additional condition(s) (or not by detectConflicts)", extra))
 		}
@@ -205,7 +252,7 @@ func otherIfsBetween(fn *ssa.Function, from []ssa.CallInstruction, to ssa.Instru
 		if ifi == nil || !b.Dominates(to.Block()) || b == to.Block() {
 			continue
 		}
-		after := false
+		after := from == nil
 		for _, f := range from {
 			if Dominates(f.(ssa.Instruction), ifi) {
 				after = true
